@@ -52,7 +52,7 @@ MODELLED = [
 BUDGET_S = {"quick": 40, "thorough": 400}
 SEARCH_S = {"quick": 60, "thorough": 240}
 
-N_PER_COMPILER = {"quick": 20, "thorough": 280}
+N_PER_COMPILER = {"quick": 20, "thorough": 200}
 
 
 def tier_depth(tier):
